@@ -1,6 +1,7 @@
 // C06: unbounded MPMC queues are linearizable FIFO queues (DESIGN.md 9/C06).
 // FAMILY selects which container types this translation unit instantiates (compile time is the bottleneck).
 #include "cont.h"
+#include "seq.h"
 #include "smr_holders.h"
 
 #ifndef FAMILY
@@ -64,6 +65,8 @@ struct QueueAdapter
             h.ret( i, ok ); break;
         }
         case DEQ: { int i = h.call( t, DEQ ); Payload v; bool ok = q->dequeue( v ); h.ret( i, ok, ok ? v.read() : 0 ); break; }
+        case EMPTY: { int i = h.call( t, EMPTY ); h.ret( i, q->empty() ? 1 : 0 ); break; }
+        case CLEAR: { int i = h.call( t, CLEAR ); q->clear(); h.ret( i, 1 ); break; }
         default: break;
         }
     }
@@ -88,6 +91,12 @@ template <class Q, class Smr, bool HasStat = false>
 void add_family( std::string const& tname, int step, int bq = 2, int bt = 3, int bq3 = 2, int bt3 = 2, int flip = 0 )
 {
     std::string base = tname + "/" + Smr::name() + ( flip ? "/flip" : "" );
+    if ( vh::property() == "C20" ) {
+        // single-threaded conformance with std::deque: all sequences over {enqueue odd (lvalue), enqueue even (rvalue), dequeue, empty, clear}
+        std::vector<POp> alpha = { { ENQ, 1, 0 }, { ENQ, 2, 0 }, { DEQ, 0, 0 }, { EMPTY, 0, 0 }, { CLEAR, 0, 0 } };
+        add_seq_generic<QueueAdapter<Q, Smr, HasStat>, QCfg>( g_scen, base, QCfg{ 1, flip }, alpha, { TProg(), { { ENQ, 7, 0 }, { ENQ, 8, 0 }, { ENQ, 9, 0 } } }, 5, 7 );
+        return;
+    }
     // grammar: every 2-thread program with 1..2 operations per thread over {enq, deq} on prefixes [], [x], [x,y]
     std::vector<POp> alpha = { { ENQ, 0, 0 }, { DEQ, 0, 0 } };
     std::vector<TProg> seqs = sequences( alpha, 2 );
